@@ -745,7 +745,7 @@ def run(ck: Check):
         for st in styles:
             if name in ("dtd", "artists", "series", "stripe", "mixed-kinds") and st == "namespace-clusters" and ck.quick:
                 continue
-            add_job(f"{name}/{st}", sources, g_options(r, st), entry)
+            add_job(f"{name}/{st}", sources, g_options(r, st), entry, timeout=400 if name == "mathml3" else 90)
     ngen = ck.n(10, 50) if rp is None else 0
     for k in range(ngen):
         sources = g_schema_set(r)
@@ -813,6 +813,9 @@ def run(ck: Check):
                 distinct.add(("pipeline", j["id"]))
             if x["status"] == "timeout":
                 ck.notes.append(f"job {j['id']} timed out")
+            if x["status"] == "error":
+                err = x.get("error") or {}
+                crashes.append({"job": j["id"], "type": err.get("type"), "message": (err.get("message") or "")[:160], "where": err.get("where")})
         ck.cov["pipeline_status"] = status_count
         ck.cov["pipeline_uncaught_exceptions"] = {"count": len(crashes), "samples": crashes[:6],
                                                   "note": "deterministic (same under every seed); not a C12 matter, reported to C07/C15"}
